@@ -108,3 +108,9 @@ Lemma shift_consistent sigma lam : reported_eigenvalue sigma sigma lam == lam.
 Proof. unfold reported_eigenvalue. ring. Qed.
 Lemma shift_inconsistent sigma lam : ~ sigma == 0 -> ~ reported_eigenvalue 0 sigma lam == lam.
 Proof. unfold reported_eigenvalue. intros H E. apply H. lra. Qed.
+
+(* ---- (4) SLQ order clamp ---- *)
+Lemma clamp_order_spec requested op_size :
+  clamp_order requested op_size = Nat.min requested op_size /\
+  (op_size <= requested -> clamp_order requested op_size = op_size)%nat.
+Proof. unfold clamp_order. destruct (Nat.ltb_spec op_size requested); lia. Qed.
